@@ -106,6 +106,9 @@ def plan_payloads(ctx, q):
         # bytes / runes that Unicode-aware helpers treat as space or line break: ordinary payload here (no extra line, nothing trimmed)
         ("unispace", dict(data=all_strs(["LF", "SP", "x", "VT", "FORMFEED", "NEL", "NBSP", "LS"], L), ids=[["x", "NEL"], ["LS", "x"], ["VT"]], types=[["NBSP", "x"], ["FORMFEED"]],
                           max_ops=3, max_appends=1)),
+        # lines of 61 .. 127+ bytes (F61 = 61 bytes): nothing about a line depends on its length
+        ("longlines", dict(data=[list(t) for n in range(1, 9) for t in itertools.product(["F61", "x"], repeat=n) if t.count("F61") <= 2 and list(t) == sorted(t, key=lambda z: z != "F61")],
+                           comments=[["F61", "F61"] + ["x"] * k for k in (3, 4, 5)], ids=[X], types=[X], max_ops=2, max_appends=1)),
         ("families", dict(data=[X, INJECT, INJECT2, ["LF"], []], comments=[["x", "LF", "data", "COLON", "y"]], ids=ids2[:3], types=[X, ["data"]],
                           retries=["ms1", "neg"], max_msgs=2 if q else 3, max_ops=2, max_appends=1)),
     ]
